@@ -36,6 +36,18 @@ def Writer.put (w : Writer) (bs : Bytes) : Writer :=
   let len := w.bufLen + bs.length
   { w with buf := w.buf ++ bs, bufLen := len, cap := if len > w.cap then max (2 * w.cap) len else w.cap }
 
+/-- capacity of the `BytesMut` after writing up to length `len` through `Limit<&mut BytesMut>`
+    (how header frames are written): `BufMut::put` copies into the spare capacity and calls
+    `reserve(64)` whenever the buffer is full and input remains, which doubles a `Vec`-backed
+    `BytesMut` each time -/
+def growCap : Nat → Nat → Nat → Nat
+  | 0, c, _ => c
+  | fuel + 1, c, len => if len > c ∧ 0 < c then growCap fuel (2 * c) len else c
+
+/-- `Writer.put` through the `Limit` wrapper: same octets, capacity grown by doubling -/
+def Writer.putLimited (w : Writer) (bs : Bytes) : Writer :=
+  { w.put bs with cap := growCap 64 w.cap (w.bufLen + bs.length) }
+
 /-- `Encoder::is_empty` -/
 def Writer.isEmpty (w : Writer) : Bool :=
   match w.next with
@@ -50,9 +62,9 @@ inductive BufRes where
 def Writer.putHeaderFrame (w : Writer) (kind flags sid : Nat) (pre hpack : Bytes) : Writer :=
   let room := w.maxFrame - pre.length
   if hpack.length > room then
-    { (w.put ((Head.mk kind (flags - 4) sid).encode (pre.length + room) ++ pre ++ hpack.take room)) with
+    { (w.putLimited ((Head.mk kind (flags - 4) sid).encode (pre.length + room) ++ pre ++ hpack.take room)) with
       next := some (.continuation sid (hpack.drop room)) }
-  else w.put ((Head.mk kind flags sid).encode (pre.length + hpack.length) ++ pre ++ hpack)
+  else w.putLimited ((Head.mk kind flags sid).encode (pre.length + hpack.length) ++ pre ++ hpack)
 
 /-- what `Encoder::buffer` is given: simple frames as values, header frames as field lists -/
 inductive Item where
@@ -128,5 +140,32 @@ def Writer.flush : Nat → Writer → List (Option Nat) → Bytes → Writer × 
     else
       let (w', cont) := w.unsetFrame
       if cont then Writer.flush fuel w' sc out else (w', sc, out, .ready)
+
+end H2V.Model.CodecWrite
+
+namespace H2V.Model.CodecWrite
+
+/-- `FramedWrite::shutdown` (src/codec/framed_write.rs): flush first, remember that the final flush
+    is done, only then shut the transport down.  Returns the writer, `final_flush_done`, the octets
+    the transport accepted during this call, the result, and whether `poll_shutdown` of the
+    transport was called. -/
+def Writer.shutdown (fuel : Nat) (w : Writer) (done : Bool) (sc : List (Option Nat)) :
+    Writer × Bool × Bytes × FlushRes × Bool :=
+  if done then (w, true, [], .ready, true)
+  else
+    match Writer.flush fuel w sc [] with
+    | (w', _, out, .ready) => (w', true, out, .ready, true)
+    | (w', _, out, r) => (w', false, out, r, false)
+
+/-- repeated `shutdown` calls (one per wake-up), one write script each; stops at the first call that
+    reaches the transport's `poll_shutdown` or fails.  Returns everything the transport accepted
+    and whether the transport was shut down. -/
+def Writer.shutdownRun (fuel : Nat) : Writer → Bool → List (List (Option Nat)) → Bytes → Bytes × Bool
+  | _, _, [], acc => (acc, false)
+  | w, done, sc :: rest, acc =>
+    match Writer.shutdown fuel w done sc with
+    | (_, _, out, _, true) => (acc ++ out, true)
+    | (w', done', out, .pending, false) => Writer.shutdownRun fuel w' done' rest (acc ++ out)
+    | (_, _, out, _, false) => (acc ++ out, false)
 
 end H2V.Model.CodecWrite
